@@ -54,13 +54,6 @@ Qed.
 
 (* canonical rendering of a line's items: "-x value", "-D", "--" *)
 Definition flag_names : list string := ["a"; "A"; "C"; "F"; "S"; "k"; "p"; "w"].
-Definition render_item (it : fitem) : list str :=
-  match it with
-  | FFlag n v => [l ("-" ++ n)%string; v]
-  | FDel => [l "-D"]
-  | FStray w => [w]
-  | FTerm => [l "--"]
-  end.
 Definition flags_only (its : list fitem) : Prop :=
   Forall (fun it => match it with FFlag n _ => In n flag_names | FDel => True | _ => False end) its.
 
